@@ -15,14 +15,27 @@ def rand_value(rng, it, valid=True):
         return rng.choice([lo, hi, 0, 1, rng.randint(lo, hi), rng.randint(lo, hi)])
     if it[0] == "str":
         return bytes(rng.randrange(256) for _ in range(it[1]))
+    if it[0] == "flt":
+        return rng.choice([0.0, -0.0, -0.0, 1.5, -2.75, 0.5, 1024.0]) if valid else "1.5"
     raise AssertionError
+
+
+def bits(x):
+    """floats by their bits (0.0 == -0.0 and nan != nan would mislead a comparison of decoded values)"""
+    if isinstance(x, float):
+        return ("float", struct.pack("<d", x))
+    if isinstance(x, (list, tuple)):
+        return [bits(y) for y in x]
+    return x
 
 
 def rand_fmt(rng):
     parts = []
     for _ in range(rng.randint(1, 3)):
         r = rng.random()
-        if r < 0.7:
+        if r < 0.08:
+            parts.append(rng.choice("efd"))
+        elif r < 0.7:
             parts.append(rng.choice("BHIQbhiq"))
         elif r < 0.8:
             parts.append(f"{rng.randint(1, 3)}x")
@@ -106,6 +119,10 @@ class C13(Check):
     def run_impl(self, case):
         from ebpfcat.ethercat import EtherCat, ECCmd
         pyargs = [a[1] for a in case["args"]]
+        # a request that differs only in the sign of its zeros is issued first (anything the master remembers between
+        # requests must not leak from one into the next)
+        twin = [(0.0 if isinstance(v, float) and v == 0 else v) for v in pyargs]
+        has_negzero = any(isinstance(v, float) and v == 0 and str(v).startswith("-") for v in pyargs)
 
         async def go_loop(n):
             from .c11 import parse_frame
@@ -140,8 +157,8 @@ class C13(Check):
                 rets = [await asyncio.wait_for(t, 60) for t in tasks]
                 if len(outs) != n or any(o_ != outs[0] for o_ in outs):
                     raise AssertionError(f"{n} identical concurrent requests were sent as {len(outs)} datagrams / with different payloads")
-                if any(r_ != rets[0] for r_ in rets):
-                    bad = [i for i, r_ in enumerate(rets) if r_ != rets[0]]
+                if any(bits(r_) != bits(rets[0]) for r_ in rets):
+                    bad = [i for i, r_ in enumerate(rets) if bits(r_) != bits(rets[0])]
                     raise AssertionError(f"{n} identical concurrent requests with identical responses returned different values: request {bad[0]} gave {rets[bad[0]]!r}, request 0 {rets[0]!r}")
                 return outs[0], rets[0], self._resp(case, outs[0])
             finally:
@@ -163,6 +180,13 @@ class C13(Check):
             fut.set_result(resp)
             ret = await task
             return bytes(out), ret, resp
+        if has_negzero:
+            saved, pyargs = pyargs, twin
+            try:
+                asyncio.run(go())
+            except Exception:      # noqa
+                pass
+            pyargs = saved
         try:
             out, ret, resp = asyncio.run(go())
         except struct.error as e:
@@ -180,7 +204,13 @@ class C13(Check):
         case["_resp"] = resp
         return [out, enc]
 
+    @staticmethod
+    def has_float(case):
+        return any(k == "f" and any(it[0] == "flt" for it in items(v)) for k, v in case["args"])
+
     def model_term(self, case):
+        if self.has_float(case):
+            return None          # floating-point fields are not part of the Coq struct model: oracle (Python's struct) only
         args = []
         for k, v in case["args"]:
             args.append(f"AFmt {cfmt(v)}" if k == "f" else f"AVal {csval(v)}")
@@ -213,6 +243,9 @@ class C13(Check):
                 lo, hi = (-(1 << (8 * size - 1)), (1 << (8 * size - 1)) - 1) if signed else (0, (1 << 8 * size) - 1)
                 if not lo <= v <= hi:
                     return False
+            elif it[0] == "flt":
+                if not isinstance(v, float):
+                    return False
             elif not isinstance(v, bytes):
                 return False
         return True
@@ -223,6 +256,8 @@ class C13(Check):
             return (v % (1 << 8 * it[1])).to_bytes(it[1], "little")
         if it[0] == "pad":
             return b"\0"
+        if it[0] == "flt":
+            return struct.pack("<" + it[2], v)
         return (v + bytes(it[1]))[:it[1]]
 
     @staticmethod
@@ -235,6 +270,9 @@ class C13(Check):
                 pos += it[1]
             elif it[0] == "pad":
                 pos += 1
+            elif it[0] == "flt":
+                out.append(struct.unpack_from("<" + it[2], b, pos)[0])
+                pos += it[1]
             else:
                 out.append(b[pos:pos + it[1]])
                 pos += it[1]
@@ -267,7 +305,15 @@ class C13(Check):
         else:
             want = [2, resp]
         got = [kind] + rest
-        if got != want:
+
+        def norm(x):
+            # floats by their bits (0.0 == -0.0, nan != nan)
+            if isinstance(x, float):
+                return ("float", struct.pack("<d", x))
+            if isinstance(x, (list, tuple)):
+                return [norm(y) for y in x]
+            return x
+        if norm(got) != norm(want):
             return f"returned {got!r} != expected {want!r}"
         return True
 
@@ -292,7 +338,7 @@ class C13(Check):
         return out
 
     def rule(self):
-        return ("argument lists of 0-3 (format, values) groups over B H I Q b h i q, pad bytes, byte strings and counted items, "
+        return ("argument lists of 0-3 (format, values) groups over B H I Q b h i q, 8% floating-point e f d (values incl. -0.0, preceded by the same request with +0.0; oracle only), pad bytes, byte strings and counted items, "
                 "optional trailing read-only format, data = None / count (often 0) / bytes (often empty); 8% malformed "
                 "(out-of-range or wrong count); bus echoes or returns random bytes; 15% of the requests are issued by 2, 15, 16, 17 or 20 tasks at once "
                 "through the real send loop (17 and 20 overflow one frame). Non-trivial = has arguments and succeeded; "
